@@ -509,9 +509,27 @@ func probeCancelIdle(kind string) string {
 	ctx, cancel := context.WithCancel(context.Background())
 	vic := make(chan event, 1000)
 	must(a.watch(ctx, true, "", vic))
+	// the victim has finished its replay (it showed k0) and sits in its select when it is cancelled
+	select {
+	case <-vic:
+	case <-time.After(3 * time.Second):
+		return "no-replay"
+	}
 	time.Sleep(50 * time.Millisecond)
 	cancel()
-	time.Sleep(100 * time.Millisecond)
+	closed := time.After(2 * time.Second)
+wait:
+	for {
+		select {
+		case e := <-vic:
+			if e.typ == "X" {
+				break wait
+			}
+		case <-closed:
+			break wait
+		}
+	}
+	time.Sleep(50 * time.Millisecond)
 	r0.payload = 2
 	must(a.update(r0))
 	deadline := time.After(2 * time.Second)
